@@ -24,7 +24,7 @@ CHECKS = {
     "C26": ("exploration", "runtime monitoring: address-agreement oracle over barrier-released first users; forked fresh processes for the factory's own first use; Miri many-seeds and TSan as race detectors",
             "All threads racing on the first use of a bean name (and of the factory itself, one fresh process per trial) must be handed one instance that later lookups also return. Thousands of races sampled natively, Miri explores small cases under many scheduler seeds and flags data races; sampling only.",
             "Sampled schedules; users of singletons are assumed to go through BeanFactory::get_or_default.", "DESIGN.md §3 C26", "wl-pure/beans"),
-    "C07": ("exploration", "runtime monitoring: online automaton over Listener events (trace specification of the documented state graph) on generated bodies and resume sequences; ASan overlay in thorough",
+    "C07": ("exploration", "runtime monitoring: online automaton over Listener events (trace specification of the documented state graph) on generated bodies and resume sequences + script-aware oracle (Cancelled only if the body itself asked); ASan overlay in thorough",
             "A recording listener feeds an automaton that checks continuity, documented edges (incl. 'once due'), exactly-one matching callback with payload, state()==last report, silence after terminal states and stored-outcome resumes, over thousands of generated body x resume-sequence programs (direct and via Scheduler).",
             "A body that ends while parked in a Syscall state has no documented edge; the oracle only demands that nothing illegal is reported.", "DESIGN.md §3 C07", "wl-core/coro"),
     "C08": ("exploration", "runtime monitoring: unique-value in/out sequence oracle across the coroutine boundary; ASan overlay in thorough",
@@ -63,18 +63,18 @@ CHECKS = {
     "C15": ("exploration", "runtime monitoring: completion-time ratio oracle (N sleepers finish in ~d, not N*d) + per-call lateness + loop-stall detector fed by an always-runnable sibling + late-arrival latency, gated by an in-process load monitor",
             "N tasks blocked in usleep/nanosleep/poll/select or in recv/send/accept running into the socket timeout must finish within max(2d, d+300 ms+noise) while a computing sibling keeps advancing; the median call returns at most 40 ms late and the loop thread does not sit still between two steps of the runnable sibling (healthy: 0 ms, 0 stalls); a gated burst of 600 sleepers (more than the local queue holds) must start within d/2 of each other; a task submitted while the only worker is parked must not wait for the sleeper.",
             "Core entry points, not the dylib interposition layer.", "DESIGN.md §3 C15", "wl-core/loops"),
-    "C16": ("fault_enumeration", "fault injection: scripted kernel through the fn_ptr seam, bounded-exhaustive response scripts x buffer shapes x calls x modes, byte-accounting oracle; ASan overlay in thorough",
+    "C16": ("fault_enumeration", "fault injection: scripted kernel through the fn_ptr seam, bounded-exhaustive response scripts x buffer shapes x calls x modes, byte-accounting oracle; plus patterned-stream transcript oracle against the real kernel under real LD_PRELOAD interposition; ASan and memcheck overlays in thorough",
             "Every script of kernel responses up to length 2 (quick) / 3 (thorough) over {partials around buffer boundaries, full, EAGAIN, EINTR, EOF/EPIPE, ECONNRESET, timeout} x 8 buffer shapes x 10 calls x blocking/non-blocking is executed; return value, errno and byte placement are compared with what the scripted kernel moved. Longer scripts and coroutine context are sampled.",
-            "The scripted kernel replaces only the transfer; sockets, fcntl, readiness waits and options are real.", "DESIGN.md §3 C16", "wl-core/sys"),
+            "The scripted kernel replaces only the transfer; sockets, fcntl, readiness waits and options are real. The interposed scenarios (a task pushing up to 300 000 patterned bytes through every write-family call into a 4 KiB socket buffer and reading an answer in odd pieces through every read-family call) use the real kernel and the hook library built from /repo.", "DESIGN.md §3 C16", "wl-core/sys"),
     "C17": ("fault_enumeration", "fault injection: same scripted kernel, oracle evaluated inside every inner call on the iovec list and element count it is handed; ASan overlay in thorough",
             "Inside each scripted inner call the (pointer,length) list must equal the caller's unfilled remainder and the element count must fit the array; same bounded-exhaustive grid as C16.",
             "Zero-length entries at the frontier may or may not be passed.", "DESIGN.md §3 C17", "wl-core/sys"),
     "C18": ("exploration", "runtime monitoring: real non-blocking sockets (EAGAIN-latency + F_GETFL before/after) for every hooked socket call incl. accept/connect, plus the scripted-kernel grid with a would-block-ends-the-call oracle",
             "A caller-set O_NONBLOCK descriptor with nothing ready must return -1/EAGAIN in < 400 ms (the peer acts only after 700 ms) and every outcome must leave F_GETFL unchanged, in threads and coroutines; the scripted grid adds every partial/error/timeout outcome.",
             "Unix stream / UDP sockets on this kernel.", "DESIGN.md §3 C18", "wl-core/sys"),
-    "C19": ("exploration", "runtime monitoring: bounded-exhaustive option/IO/close/reuse histories with a model of the socket's options and process-survival oracle",
+    "C19": ("exploration", "runtime monitoring: bounded-exhaustive option/IO/close/reuse histories with a model of the socket's options and process-survival oracle; plus limit-follows-the-live-socket oracle under real LD_PRELOAD interposition (libc close is not interposed)",
             "All histories up to length 4 (quick) / 6 (thorough) over set RCVTIMEO/SNDTIMEO, limit queries, a timed-out hooked recv, close + descriptor reuse; limits must equal the model (cross-checked with getsockopt), the recv must take about the limit, the process must not abort.",
-            "Options set through the hooked setsockopt.", "DESIGN.md §3 C19", "wl-core/sys"),
+            "Options set through the hooked setsockopt. The interposed scenarios run a task on TCP loopback: timed-out recv about as long as the option, then option cleared or libc close + a new connection reusing the number, next recv must wait for late data (native getsockopt as reference).", "DESIGN.md §3 C19", "wl-core/sys"),
     "C20": ("exploration", "runtime monitoring: wake-latency oracle + resume-by-token observer hook (token, hit/miss) over concurrent readiness waiters",
             "A waiter whose descriptor became ready must return within 1 s of readiness (timeout is 3 s) and the loop must have seen a readiness event carrying its coroutine id; never-ready waiters must not return early; several waits inside one call. Interest histories: descriptors that are waited on in both directions, lose one or all interests (del_read_event/del_write_event/del_event), run into wait timeouts and are handed to fresh coroutines; every wait that is made ready must still be woken by an event with its own id. Duplex socket with a reader and a writer coroutine (known finding).",
             "epoll backend, 64-bit.", "DESIGN.md §3 C20", "wl-core/loops"),
